@@ -151,6 +151,19 @@ def translate(src: Path) -> dict:
                 cleanup = True
     race = find_func(cls.body, '_create_peer_connection_race')
     race_cancels = any(calls(h.body, 'cancel') for h in handlers_for_cancel(race))
+    # the winner path (cancel + await the loser, disconnect a second success): is it inside a try whose CancelledError handler
+    # disconnects what the request already holds?
+    race_winner_covered = False
+    for nd in ast.walk(race):
+        if isinstance(nd, ast.Try) and 'await asyncio.gather(*pending, return_exceptions=True)' in ast.unparse(ast.Module(body=nd.body, type_ignores=[])) \
+                and 'pending_task.cancel()' in ast.unparse(ast.Module(body=nd.body, type_ignores=[])):
+            for h in nd.handlers:
+                if h.type is not None and any(n in ('asyncio.CancelledError', 'BaseException') for n in [ast.unparse(t) for t in (h.type.elts if isinstance(h.type, ast.Tuple) else [h.type])]) \
+                        and calls(h.body, 'disconnect') and any(isinstance(x, ast.Raise) and x.exc is None for x in h.body):
+                    race_winner_covered = True
+    # ... and disconnects a connection that one of the attempts had produced in that very moment
+    race_cancel_closes = any(calls(h.body, 'cancel') and calls(h.body, 'disconnect') and 'isinstance(result, PeerConnection)' in ast.unparse(ast.Module(body=h.body, type_ignores=[]))
+                             for h in handlers_for_cancel(race))
     race_src = ast.unparse(race)
     race_second = ('if len(connections) > 1:\n' in race_src and 'await connections[1].disconnect(CloseReason.REQUESTED)' in race_src
                    and 'return connections[0]' in race_src and 'connections.append(done_task.result())' in race_src)
@@ -210,6 +223,8 @@ def translate(src: Path) -> dict:
         ('RACE_CANCELS_LOSER', loser_cancelled, 'race mode cancels and awaits the pending attempt when one succeeded'),
         ('RACE_DISCONNECTS_SECOND', race_second, 'race mode disconnects a second simultaneous success'),
         ('RACE_CANCELS_ON_CANCEL', race_cancels, 'race mode: except CancelledError around asyncio.wait cancels the attempt tasks'),
+        ('RACE_CANCEL_COVERS_WINNER_PATH', race_winner_covered, 'race mode: a cancellation of the request while it awaits the cancelled loser / disconnects a second success closes the connection(s) it already holds'),
+        ('RACE_CANCEL_DISCONNECTS_FINISHED', race_cancel_closes, 'race mode: that handler disconnects the connection of an attempt that had just finished'),
         ('RESPONDER_REPORTS_WRITE_FAILURE', resp_catches, '_handle_connect_to_peer: a failed PeerPierceFirewall write leads to CannotConnect'),
     ]
     for name, val, doc in flags:
